@@ -639,6 +639,10 @@ func (st *Stack) compactRange(first, last int, expiration *LogExpirationConfig) 
 	if os.IsExist(err) {
 		return false, nil
 	}
+	if err != nil {
+		// Not our lock: leave it alone.
+		return false, err
+	}
 
 	lockFile.Close()
 	defer func() {
